@@ -419,12 +419,51 @@ def observe(src: str) -> dict:
             for plat, board in (("atmelmegaavr", "nano_every"), ("atmelmegaavr", "ATmega4809"), ("atmelavr", "leonardo")):
                 pio.write_project(Path(d) / f"p-{board}", cpp, "COM3", platform=plat, board=board, lib_deps=list(libs))
                 out["variants"].append([str(x) for x in read_ini(Path(d) / f"p-{board}" / "platformio.ini").get("libs", [])])
+            # ... and the request as the user gets it: the real target() run end to end on this script as __main__ (generate-only
+            # and with the upload steps answered by stubs), the project directory it wrote read back
+            for up in (False, True):
+                got = _target_ini(src, Path(d), up)
+                if got is not None:
+                    out["variants"].append(got)
         finally:
             shutil.rmtree(d, ignore_errors=True)
     except Exception as e:  # noqa: BLE001  (write_project refusing a library list is C13's matter; the collected list stays the observation)
         out["ini_error"] = f"{type(e).__name__}: {e}"[:200]
     out.update(observe_text(cpp))
     return out
+
+
+def _target_ini(src: str, d: Path, upload: bool):
+    """lib_deps of the platformio.ini that Reduino.target("COM3", upload=...) writes for `src` (None when target() refuses - whether it
+    may refuse is C12's matter).  Nothing is executed: ensure_pio / compile_upload are answered by stubs, the project goes to d."""
+    import contextlib
+    import io
+    import sys
+    import Reduino
+    from .pio_rec import read_ini
+    tag = "up" if upload else "gen"
+    script, proj = d / f"sketch-{tag}.py", d / f"e2e-{tag}"
+    script.write_text(src, encoding="utf-8")
+    proj.mkdir()
+    main = sys.modules["__main__"]
+    had, old_file = hasattr(main, "__file__"), getattr(main, "__file__", None)
+    saved = (Reduino.tempfile.mkdtemp, Reduino.ensure_pio, Reduino.compile_upload)
+    try:
+        main.__file__ = str(script)
+        Reduino.tempfile.mkdtemp = lambda *a, **kw: str(proj)
+        Reduino.ensure_pio = lambda *a, **kw: None
+        Reduino.compile_upload = lambda *a, **kw: None
+        with contextlib.redirect_stderr(io.StringIO()), contextlib.redirect_stdout(io.StringIO()):
+            Reduino.target("COM3", upload=upload)
+        return [str(x) for x in read_ini(proj / "platformio.ini").get("libs", [])]
+    except Exception:  # noqa: BLE001
+        return None
+    finally:
+        Reduino.tempfile.mkdtemp, Reduino.ensure_pio, Reduino.compile_upload = saved
+        if had:
+            main.__file__ = old_file
+        else:
+            del main.__file__
 
 
 def _observe_stim(stim: dict) -> dict:
